@@ -218,6 +218,16 @@ func calQueryDoc(r *RNG, q *caldav.CalendarQuery, mut string) *wEl {
 		cf.Add(E(nsCal, "comp-filter", E(nsCal, "time-range").A("start", "2024-01-01T00:00:00Z")).A("name", "VEVENT"))
 	case "bad-date-2":
 		cf.Add(E(nsCal, "comp-filter", E(nsCal, "time-range").A("end", "20240230T000000Z")).A("name", "VEVENT"))
+	case "empty-date":
+		cf.Add(E(nsCal, "comp-filter", E(nsCal, "time-range").A("start", "").A("end", "20240201T000000Z")).A("name", "VEVENT"))
+	case "empty-date-2":
+		cf.Add(E(nsCal, "prop-filter", E(nsCal, "time-range").A("start", "20240101T000000Z").A("end", "")).A("name", "DTSTART"))
+	case "empty-expand":
+		cd.Add(E(nsCal, "expand").A("start", "").A("end", ""))
+		if q.CompRequest.Expand != nil {
+			cd.children = cd.children[:1]
+			cd.Add(E(nsCal, "expand").A("start", "").A("end", ""))
+		}
 	case "local-date":
 		cf.Add(E(nsCal, "comp-filter", E(nsCal, "time-range").A("start", "20240101T000000")).A("name", "VEVENT"))
 	case "bad-expand":
@@ -539,7 +549,7 @@ func famCalWire(o *Out, r *RNG, thorough bool) {
 	if thorough {
 		n = 40000
 	}
-	muts := []string{"", "", "", "", "", "", "explicit-defaults", "explicit-defaults", "bad-negate", "bad-date", "bad-date-2", "local-date", "bad-expand",
+	muts := []string{"", "", "", "", "", "", "explicit-defaults", "explicit-defaults", "bad-negate", "bad-date", "bad-date-2", "empty-date", "empty-date-2", "empty-expand", "local-date", "bad-expand",
 		"comp-ind-with-range", "comp-ind-with-prop", "comp-ind-with-comp", "prop-ind-with-match", "prop-ind-with-range", "prop-ind-with-param",
 		"param-ind-with-match", "allprop-and-prop", "allcomp-and-comp", "wrong-root", "wrong-root-ns", "wrong-filter-ns", "wrong-compfilter-ns",
 		"wrong-nested-ns", "wrong-comp-ns", "wrong-dataprop-ns", "no-filter", "no-prop", "dav-allprop", "dav-propname", "no-calendar-data",
